@@ -366,3 +366,14 @@ func GhostHas(p interface{}, attr string) bool {
 func GhostCopy(dst, src interface{}) {}
 
 func Pin(v Int) Int { return v }
+
+func UFBV(name string, w int, in ...BV) BV             { panic(Skip{"uninterpreted function on replay"}) }
+func UFBVBool(name string, in ...BV) bool              { panic(Skip{"uninterpreted function on replay"}) }
+func BVToBytes(v BV, out []byte)                       { b := v.v.Bytes(); for i := range out { out[i] = 0 }; for i := 0; i < len(b) && i < len(out); i++ { out[i] = b[len(b)-1-i] } }
+func GhostSetBV(p interface{}, attr string, v BV)      { ghostStore[fmt.Sprintf("%p/%s", p, attr)] = v }
+func GhostGetBV(p interface{}, attr string, w int) BV {
+	if v, ok := ghostStore[fmt.Sprintf("%p/%s", p, attr)]; ok {
+		return v.(BV)
+	}
+	return mkBV(new(big.Int), w)
+}
